@@ -33,6 +33,7 @@ from __future__ import annotations
 import ast
 import inspect
 import itertools
+import math
 import logging
 import signal
 import sys
@@ -1174,6 +1175,32 @@ def check_controller_apply(ctx, n):
         ctx.case(case, nontrivial=True)
 
 
+def check_controller_vanishing_error(ctx):
+    """error estimate exactly zero (error_power = +inf; a solution the prior captures exactly), also several times in a row:
+    every proposal is the attempted step times a factor inside [factor_min, factor_max] - here the upper end - and never
+    NaN.  The rational model has no infinity; the expected value is the limit of the model for error_power -> inf
+    (every gain with a positive exponent grows without bound, so the clipped factor is max(factor_min, factor_max)).
+    Found as D13: the PI controller returned inf / inf = NaN from the second such step on (repository fix 4dae887)."""
+    C = _controllers()
+    for kind, ctl in (("I", C.control_integral()), ("PI", C.control_proportional_integral()),
+                      ("PI", C.control_proportional_integral(safety=0.5, factor_min=0.25, factor_max=4.0, exponent_integral=0.5, exponent_proportional=0.25))):
+        dt, st = jnp.asarray(0.125), ctl.init(0.125)
+        fmin, fmax = float(ctl.factor_min), float(ctl.factor_max)
+        for k, ep in enumerate([jnp.inf, jnp.inf, jnp.inf, 2.0, jnp.inf]):
+            dnew, st = ctl.apply(dt, st, error_power=jnp.asarray(ep))
+            ratio = float(dnew) / float(dt)
+            case = {"kind": kind, "call": k, "error_power": str(ep), "dt": float(dt), "dt_new": float(dnew), "factor_min": fmin, "factor_max": fmax}
+            ctx.case(case, nontrivial=True)
+            ctx.count("ctl_apply=vanishing-error")
+            if not (math.isfinite(float(dnew)) and fmin <= ratio <= max(fmin, fmax)):
+                ctx.violation(f"controller:{kind}:vanishing-error", f"{kind} controller, application {k} with error_power = {ep}: proposal {float(dnew)!r} for dt = {float(dt)} is not dt x factor in [factor_min, factor_max]", case)
+                break
+            if ep == jnp.inf and ratio != max(fmin, fmax):
+                ctx.violation(f"controller:{kind}:vanishing-error:not-saturated", f"{kind} controller with a vanishing error estimate proposes factor {ratio}, expected factor_max", case)
+                break
+            dt = dnew
+
+
 # ------------------------------------------------------------------------------------------------
 
 
@@ -1203,6 +1230,7 @@ def run(ctx):
         run_case(ctx, case)
     # ---- single controller applications
     check_controller_apply(ctx, ctx.n(60, 600))
+    check_controller_vanishing_error(ctx)
     # ---- profile scripts
     n_profile = ctx.n(200, 4200)
     n_bare, n_nojit = ctx.n(14, 150), ctx.n(3, 40)
